@@ -2,6 +2,7 @@
 
 Each loop body is verified for an arbitrary element of its kind (independent-iteration rule, see
 contracts/_net.py:WN2); the frame obligation says the body writes only that element's own fields.
+Cases are replayable (`replay="model"`): the counter-model is turned into real wntr objects.
 """
 import math
 import types
@@ -19,7 +20,7 @@ import wntr.sim.hydraulics as hyd
 from wntr.network import LinkStatus
 from wntr.network.base import Link
 from wntr.network.elements import (Junction, Tank, Reservoir, Pipe, HeadPump, PowerPump, PRValve, PSValve, FCValve, TCValve)
-from contracts._net import (WN2, mk_node, mk_link, leaf_pmap, list_map, fn, R, B, IS_J, IS_T, IS_R, IS_L)
+from contracts._net import (WN2, mk_node, mk_link, fn, R, B, IS_J, IS_T, IS_R, IS_L)
 
 I = z3.IntSort()
 P = ["C01", "C09"]
@@ -28,25 +29,28 @@ INL = fn("inlet_link", NameSort, I, NameSort)
 OUTL = fn("outlet_link", NameSort, I, NameSort)
 IS_V = fn("is_valve", NameSort, B)
 RES_HEAD = fn("reservoir_head_at", NameSort, I, R)
+MF = {k: fn(k, NameSort, R) for k in ("flow", "valve_setting", "head", "demand", "expected_demand", "leak_rate")}
 
 
-def _generic_link(name):
-    return SymObj(Link, dict(_link_name=name, _flow=SV(FLOWFIELD(name.t), "real")), label="registered link")
+def _generic_link(cx):
+    def gen(name):
+        return cx.obj(Pipe, _link_name=name, _flow=cx.fval(FLOWFIELD, name))
+    return gen
 
 
 def _model(cx):
     JT = lambda k: z3.Or(IS_J(k), IS_T(k))
-    return cx.obj(ModelStub, flow=leaf_pmap("flow", IS_L), valve_setting=leaf_pmap("valve_setting", IS_V),
-                  head=leaf_pmap("head", IS_J), demand=leaf_pmap("demand", IS_J),
-                  expected_demand=leaf_pmap("expected_demand", IS_J), leak_rate=leaf_pmap("leak_rate", JT))
+    doms = dict(flow=IS_L, valve_setting=IS_V, head=IS_J, demand=IS_J, expected_demand=IS_J, leak_rate=JT)
+    return cx.obj(ModelStub if cx.is_symbolic() else types.SimpleNamespace,
+                  **{k: cx.map(MF[k], dom=doms[k], leaf=True, label=k) for k in MF})
 
 
 def _opts(cx, mode):
     return cx.obj(types.SimpleNamespace, hydraulic=cx.obj(types.SimpleNamespace, demand_model=mode))
 
 
-def _val(name, n):
-    return fn(name, NameSort, R)(n.t)
+def _val(name, n, cx):
+    return MF[name](cx.t(n))
 
 
 def _only_own_fields(path, obj):
@@ -55,11 +59,11 @@ def _only_own_fields(path, obj):
 
 
 class HeadTS(NativeModel):
-    def __init__(self, n):
-        self.n = n
+    def __init__(self, cx, n):
+        self.cx, self.n = cx, n
 
     def at(self, t):
-        return SV(RES_HEAD(self.n.t, library.as_int(t)), "real")
+        return self.cx.fval(RES_HEAD, self.n, t)
 
 
 # ---------------------------------------------------------------------------- store_results_in_network
@@ -68,7 +72,8 @@ def _store_link_case(cls, isolated):
     def build(cx):
         l = cx.name("l")
         cx.assume(IS_L(cx.t(l)), IS_V(cx.t(l)) == (cls is PRValve))
-        link = mk_link(cx, cls, l, None, None, _is_isolated=isolated, _flow=cx.real("old_flow"), _setting=cx.real("old_setting"))
+        old_setting = cx.real("old_setting")
+        link = mk_link(cx, cls, l, None, None, _is_isolated=isolated, _flow=cx.real("old_flow"), _setting=old_setting)
         wn = WN2(options=_opts(cx, "DD"))
         wn.declare_link(l, link)
         m = _model(cx)
@@ -77,24 +82,24 @@ def _store_link_case(cls, isolated):
         def post(out):
             if not out.returned:
                 return []
-            f = link.fields
             posts = [("flow_is_zero_if_isolated_else_solved_flow",
-                      library.as_real(f["_flow"]) == (z3.RealVal(0) if isolated else _val("flow", l))),
+                      cx.num(cx.field(link, "_flow")) == (z3.RealVal(0) if isolated else _val("flow", l, cx))),
                      ("frame_only_own_fields", _only_own_fields(cx.path, link))]
             if cls is PRValve:
-                posts.append(("valve_setting_is_model_value", library.as_real(f["_setting"]) == _val("valve_setting", l)))
+                posts.append(("valve_setting_is_model_value", cx.num(cx.field(link, "_setting")) == _val("valve_setting", l, cx)))
             else:
-                posts.append(("non_valve_setting_untouched", library.as_real(f["_setting"]) == cx.t(cx.inputs["old_setting"])))
+                posts.append(("non_valve_setting_untouched", cx.num(cx.field(link, "_setting")) == cx.t(old_setting)))
             return posts
         cx.ensure(post)
-    return Case("link:%s,isolated=%s" % (cls.__name__, isolated), build, crosscheck=False)
+    return Case("link:%s,isolated=%s" % (cls.__name__, isolated), build, crosscheck=False, replay="model")
 
 
 def _store_junction_case(mode, isolated, leak):
     def build(cx):
         n = cx.name("n")
         cx.assume(IS_J(cx.t(n)), z3.Not(IS_T(cx.t(n))))
-        node = mk_node(cx, Junction, n, _is_isolated=isolated, _leak_status=leak, _elevation=cx.real("elev"))
+        elev = cx.real("elev")
+        node = mk_node(cx, Junction, n, _is_isolated=isolated, _leak_status=leak, _elevation=elev)
         wn = WN2(options=_opts(cx, mode))
         wn.declare_node(n, node)
         m = _model(cx)
@@ -103,28 +108,33 @@ def _store_junction_case(mode, isolated, leak):
         def post(out):
             if not out.returned:
                 return []
-            f = {k: library.as_real(v) for k, v in node.fields.items() if k in ("_head", "_demand", "_pressure", "_leak_demand")}
+            f = {k: cx.num(cx.field(node, k)) for k in ("_head", "_demand", "_pressure", "_leak_demand")}
             if isolated:
                 want = dict(_head=0, _demand=0, _pressure=0, _leak_demand=0)
             else:
-                want = dict(_head=_val("head", n), _pressure=_val("head", n) - cx.t(cx.inputs["elev"]),
-                            _demand=_val("demand", n) if mode in ("PDD", "PDA") else _val("expected_demand", n),
-                            _leak_demand=_val("leak_rate", n) if leak else 0)
+                want = dict(_head=_val("head", n, cx), _pressure=_val("head", n, cx) - cx.t(elev),
+                            _demand=_val("demand", n, cx) if mode in ("PDD", "PDA") else _val("expected_demand", n, cx),
+                            _leak_demand=_val("leak_rate", n, cx) if leak else 0)
             nm = {"_head": "head_is_solved_head_or_zero_if_isolated", "_pressure": "pressure_is_head_minus_elevation_or_zero_if_isolated",
                   "_demand": "demand_is_delivered_demand_or_zero_if_isolated", "_leak_demand": "leak_demand_is_leak_rate_iff_active_and_connected"}
             posts = [(nm[k], f[k] == want[k]) for k in want]
             posts.append(("frame_only_own_fields", _only_own_fields(cx.path, node)))
             return posts
         cx.ensure(post)
-    return Case("junction:mode=%s,isolated=%s,leak=%s" % (mode, isolated, leak), build, crosscheck=False)
+    return Case("junction:mode=%s,isolated=%s,leak=%s" % (mode, isolated, leak), build, crosscheck=False, replay="model")
 
 
-def _in_sum():
-    return PrefixSum("stored_inflow_prefix", lambda i: FLOWFIELD(INL(z3.Const("n", NameSort), i)))
+def _in_sum(nt):
+    return PrefixSum("stored_inflow_prefix", lambda i: FLOWFIELD(INL(nt, i)))
 
 
-def _out_sum():
-    return PrefixSum("stored_outflow_prefix", lambda i: FLOWFIELD(OUTL(z3.Const("n", NameSort), i)))
+def _out_sum(nt):
+    return PrefixSum("stored_outflow_prefix", lambda i: FLOWFIELD(OUTL(nt, i)))
+
+
+def _native_sum(cx, ps, n):
+    """value of a prefix-sum spec function at n under the replay model: its defining recurrence unrolled."""
+    return sum((ps.summand(z3.IntVal(i)) for i in range(int(n))), z3.RealVal(0))
 
 
 def _store_source_case(cls, leak):
@@ -133,36 +143,42 @@ def _store_source_case(cls, leak):
         nin, nout, st = cx.int("n_in"), cx.int("n_out"), cx.int("sim_time")
         cx.assume(cx.t(nin) >= 0, cx.t(nout) >= 0, cx.t(st) >= 0,
                   IS_T(cx.t(n)) == (cls is Tank), z3.Not(IS_J(cx.t(n))), IS_R(cx.t(n)) == (cls is Reservoir))
-        extra = dict(_head_timeseries=HeadTS(n)) if cls is Reservoir else dict(_leak_status=leak)
-        node = mk_node(cx, cls, n, _head=cx.real("old_head"), **extra)
-        wn = WN2(options=_opts(cx, "DD"), sim_time=st, generic_link=_generic_link)
+        cx.hint(cx.t(nin) <= 4, cx.t(nout) <= 4)
+        old_head = cx.real("old_head")
+        extra = dict(_head_timeseries=HeadTS(cx, n)) if cls is Reservoir else dict(_leak_status=leak)
+        node = mk_node(cx, cls, n, _head=old_head, **extra)
+        wn = WN2(options=_opts(cx, "DD"), sim_time=st, generic_link=_generic_link(cx))
         wn.declare_node(n, node)
-        wn.inlet[n.t.get_id()] = SymSeq(nin, lambda i: SV(INL(n.t, i), "name"), label="inlet", facts=lambda i: [IS_L(INL(n.t, i))])
-        wn.outlet[n.t.get_id()] = SymSeq(nout, lambda i: SV(OUTL(n.t, i), "name"), label="outlet", facts=lambda i: [IS_L(OUTL(n.t, i))])
+        wn.set_links_for_node(n, inlet=cx.seq(nin, INL, n, label="inlet", facts=lambda i: [IS_L(INL(cx.t(n), i))]),
+                              outlet=cx.seq(nout, OUTL, n, label="outlet", facts=lambda i: [IS_L(OUTL(cx.t(n), i))]))
         m = _model(cx)
         cx.target(hyd.store_results_in_network, wn, m)
 
         def post(out):
             if not out.returned:
                 return []
-            f = node.fields
-            lk = (_val("leak_rate", n) if leak else z3.RealVal(0)) if cls is Tank else z3.RealVal(0)
-            posts = [("demand_is_net_inflow_minus_leak",
-                      library.as_real(f["_demand"]) == _in_sum().at(cx.t(nin)) - _out_sum().at(cx.t(nout)) - lk),
-                     ("leak_demand_is_leak_rate_iff_active", library.as_real(f["_leak_demand"]) == lk),
+            nt = cx.t(n)
+            lk = (_val("leak_rate", n, cx) if leak else z3.RealVal(0)) if cls is Tank else z3.RealVal(0)
+            if cx.is_symbolic():
+                sin, sout = _in_sum(nt).at(cx.t(nin)), _out_sum(nt).at(cx.t(nout))
+            else:
+                sin, sout = _native_sum(cx, _in_sum(nt), nin), _native_sum(cx, _out_sum(nt), nout)
+            posts = [("demand_is_net_inflow_minus_leak", cx.num(cx.field(node, "_demand")) == sin - sout - lk),
+                     ("leak_demand_is_leak_rate_iff_active", cx.num(cx.field(node, "_leak_demand")) == lk),
                      ("frame_only_own_fields", _only_own_fields(cx.path, node))]
             if cls is Reservoir:
-                posts.append(("reservoir_head_is_head_timeseries_now", library.as_real(f["_head"]) == RES_HEAD(n.t, cx.t(st))))
+                posts.append(("reservoir_head_is_head_timeseries_now", cx.num(cx.field(node, "_head")) == RES_HEAD(nt, cx.t(st))))
             else:
-                posts.append(("tank_head_untouched", library.as_real(f["_head"]) == cx.t(cx.inputs["old_head"])))
+                posts.append(("tank_head_untouched", cx.num(cx.field(node, "_head")) == cx.t(old_head)))
             return posts
         cx.ensure(post)
-    return Case("%s,leak=%s" % (cls.__name__, leak), build, crosscheck=False)
+    return Case("%s,leak=%s" % (cls.__name__, leak), build, crosscheck=False, replay="model")
 
 
 _q = "wntr.sim.hydraulics:store_results_in_network"
-_store_sum_specs = {(_q, 1): lambda loc: _in_sum(), (_q, 2): lambda loc: _out_sum(),
-                    (_q, 3): lambda loc: _in_sum(), (_q, 4): lambda loc: _out_sum()}
+_N = z3.Const("n", NameSort)
+_store_sum_specs = {(_q, 1): lambda loc: _in_sum(_N), (_q, 2): lambda loc: _out_sum(_N),
+                    (_q, 3): lambda loc: _in_sum(_N), (_q, 4): lambda loc: _out_sum(_N)}
 
 _store_cases = ([_store_link_case(c, iso) for c in (Pipe, HeadPump, PRValve) for iso in (False, True)] +
                 [_store_junction_case(md, iso, lk) for md in ("DD", "PDD", "PDA") for iso in (False, True) for lk in (False, True)] +
@@ -171,14 +187,32 @@ _store_cases = ([_store_link_case(c, iso) for c in (Pipe, HeadPump, PRValve) for
 
 # ---------------------------------------------------------------------------- save_results
 
-def _res_maps():
-    node_res = {k: list_map("node_res[%s]" % k) for k in ("head", "demand", "pressure", "leak_demand")}
-    link_res = {k: list_map("link_res[%s]" % k) for k in ("flowrate", "velocity", "status", "setting")}
-    return node_res, link_res
+class _Lists:
+    """node_res[key] / link_res[key]: name -> list, in both modes."""
+
+    def __init__(self, cx, label):
+        self.cache = {}
+        self.cx = cx
+        if cx.is_symbolic():
+            def get(k):
+                return self.cache.setdefault(WN2._k(k), [])
+            self.map = SymMap(lambda k: z3.BoolVal(True), get, label=label)
+        else:
+            outer = self
+
+            class D(dict):
+                def __missing__(self, k):
+                    return outer.cache.setdefault(str(k), [])
+            self.map = D()
+
+    def of(self, name):
+        return self.cache.get(WN2._k(name), [])
 
 
-def _lst(res, key, name):
-    return res[key].cache.get(name.t.get_id(), [])
+def _res_maps(cx):
+    nl = {k: _Lists(cx, "node_res[%s]" % k) for k in ("head", "demand", "pressure", "leak_demand")}
+    ll = {k: _Lists(cx, "link_res[%s]" % k) for k in ("flowrate", "velocity", "status", "setting")}
+    return nl, ll, {k: v.map for k, v in nl.items()}, {k: v.map for k, v in ll.items()}
 
 
 def _one(lst, want, cx):
@@ -187,15 +221,15 @@ def _one(lst, want, cx):
         return False
     v = lst[0]
     if isinstance(want, (LinkStatus,)):
-        return v is want
-    return library.as_real(v) == want
+        return v is want or v == want
+    return cx.num(v) == want
 
 
-def _nothing_else_appended(res_n, res_l, name):
-    for res in (res_n, res_l):
+def _nothing_else_appended(ls, name):
+    for res in ls:
         for k, m in res.items():
             for key, lst in m.cache.items():
-                if key != name.t.get_id() and lst:
+                if key != WN2._k(name) and lst:
                     return False
     return True
 
@@ -209,7 +243,7 @@ def _save_node_case(cls, isolated):
             cx.assume(cx.t(h) == 0, cx.t(d) == 0, cx.t(ld) == 0)
         wn = WN2()
         wn.declare_node(n, node)
-        nres, lres = _res_maps()
+        nl, ll, nres, lres = _res_maps(cx)
         cx.target(hyd.save_results, wn, nres, lres)
 
         def post(out):
@@ -218,14 +252,14 @@ def _save_node_case(cls, isolated):
             H, D, LD, EL = cx.t(h), cx.t(d), cx.t(ld), cx.t(el)
             press = z3.RealVal(0) if (cls is Reservoir or isolated) else H - EL
             leakw = z3.RealVal(0) if cls is Reservoir else LD
-            return [("one_head_entry_equal_to_stored_head", _one(_lst(nres, "head", n), H, cx)),
-                    ("one_demand_entry_equal_to_stored_demand", _one(_lst(nres, "demand", n), D, cx)),
-                    ("one_pressure_entry_head_minus_elevation_zero_if_isolated_or_reservoir", _one(_lst(nres, "pressure", n), press, cx)),
-                    ("one_leak_entry_equal_to_stored_leak_demand", _one(_lst(nres, "leak_demand", n), leakw, cx)),
-                    ("no_other_list_touched", _nothing_else_appended(nres, lres, n)),
+            return [("one_head_entry_equal_to_stored_head", _one(nl["head"].of(n), H, cx)),
+                    ("one_demand_entry_equal_to_stored_demand", _one(nl["demand"].of(n), D, cx)),
+                    ("one_pressure_entry_head_minus_elevation_zero_if_isolated_or_reservoir", _one(nl["pressure"].of(n), press, cx)),
+                    ("one_leak_entry_equal_to_stored_leak_demand", _one(nl["leak_demand"].of(n), leakw, cx)),
+                    ("no_other_list_touched", _nothing_else_appended((nl, ll), n)),
                     ("network_state_not_modified", not [w for w in cx.path.writes if not isinstance(w[0], SymMap)])]
         cx.ensure(post)
-    return Case("node:%s,isolated=%s" % (cls.__name__, isolated), build, crosscheck=False)
+    return Case("node:%s,isolated=%s" % (cls.__name__, isolated), build, crosscheck=False, replay="model")
 
 
 def _coeff_model():
@@ -244,6 +278,7 @@ def _save_link_case(cls, user, internal):
     def build(cx):
         l = cx.name("l")
         q = cx.real("flow")
+        setting = cx.real("setting")
         extra = {}
         dkey = "_diameter" if cls is Pipe else "diameter"     # Valve keeps a plain attribute
         if cls in (Pipe, PRValve):
@@ -251,12 +286,21 @@ def _save_link_case(cls, user, internal):
             cx.assume(cx.t(extra[dkey]) > 0)
         if cls is Pipe:
             extra["_roughness"] = cx.real("roughness")
+        if cls is HeadPump:
+            # replay: a real 1-point curve realising the model's (A, B, C=2) is not attempted; the pump keeps cached coefficients
+            A, Bc, Cc = cx.real("pumpA"), cx.real("pumpB"), cx.real("pumpC")
+            cx.assume(cx.t(A) > 0, cx.t(Bc) >= 0, cx.t(Cc) > 0)
+            if not cx.is_symbolic():
+                from wntr.network.elements import Curve
+                curve = Curve("c", "HEAD", [(1.0, 1.0)])
+                extra.update(_curve_coeffs=[float(A), float(Bc), float(Cc)], _coeffs_curve_points=curve.points,
+                             _pump_curve_name="c", _curve_reg={"c": curve})
         sn = mk_node(cx, Junction, cx.name("s"), _head=cx.real("hs"))
         en = mk_node(cx, Junction, cx.name("e"), _head=cx.real("he"))
-        link = mk_link(cx, cls, l, sn, en, _user_status=user, _internal_status=internal, _flow=q, _setting=cx.real("setting"), **extra)
-        wn = WN2(generic_node=lambda nm: sn if nm.t.eq(sn.fields["_name"].t) else en)
+        link = mk_link(cx, cls, l, sn, en, _user_status=user, _internal_status=internal, _flow=q, _setting=setting, **extra)
+        wn = WN2(generic_node=lambda nm: sn if str(nm) == str(cx.field(sn, "_name")) else en)
         wn.declare_link(l, link)
-        nres, lres = _res_maps()
+        nl, ll, nres, lres = _res_maps(cx)
         cx.target(hyd.save_results, wn, nres, lres)
         from contracts.builders import spec_status
         st = spec_status(cls, user, internal)
@@ -264,23 +308,23 @@ def _save_link_case(cls, user, internal):
         def post(out):
             if not out.returned:
                 return []
-            posts = [("one_flow_entry_equal_to_stored_flow", _one(_lst(lres, "flowrate", l), cx.t(q), cx)),
-                     ("one_status_entry_equal_to_link_status", _one(_lst(lres, "status", l), st, cx)),
-                     ("one_velocity_entry", len(_lst(lres, "velocity", l)) == 1),
-                     ("one_setting_entry", len(_lst(lres, "setting", l)) == 1),
-                     ("no_other_list_touched", _nothing_else_appended(nres, lres, l)),
+            posts = [("one_flow_entry_equal_to_stored_flow", _one(ll["flowrate"].of(l), cx.t(q), cx)),
+                     ("one_status_entry_equal_to_link_status", _one(ll["status"].of(l), st, cx)),
+                     ("one_velocity_entry", len(ll["velocity"].of(l)) == 1),
+                     ("one_setting_entry", len(ll["setting"].of(l)) == 1),
+                     ("no_other_list_touched", _nothing_else_appended((nl, ll), l)),
                      ("network_state_not_modified", not [w for w in cx.path.writes if not isinstance(w[0], SymMap)])]
             if cls in (Pipe, PRValve):
                 D = cx.t(extra[dkey])
                 Q = cx.t(q)
-                v = _lst(lres, "velocity", l)
+                v = ll["velocity"].of(l)
                 if len(v) == 1:
-                    posts.append(("velocity_is_abs_flow_over_area", library.as_real(v[0]) * (real_val(math.pi) * D * D) == z3.If(Q >= 0, Q, -Q) * 4))
+                    posts.append(("velocity_is_abs_flow_over_area", cx.num(v[0]) * (real_val(math.pi) * D * D) == z3.If(Q >= 0, Q, -Q) * 4))
             if cls is PRValve:
-                posts.append(("valve_setting_entry_is_setting", _one(_lst(lres, "setting", l), cx.t(cx.inputs["setting"]), cx)))
+                posts.append(("valve_setting_entry_is_setting", _one(ll["setting"].of(l), cx.t(setting), cx)))
             return posts
         cx.ensure(post)
-    return Case("link:%s,user=%s,internal=%s" % (cls.__name__, user.name, internal.name), build, crosscheck=False)
+    return Case("link:%s,user=%s,internal=%s" % (cls.__name__, user.name, internal.name), build, crosscheck=False, replay="model")
 
 
 _save_cases = ([_save_node_case(Junction, iso) for iso in (False, True)] + [_save_node_case(Tank, False), _save_node_case(Reservoir, False)] +
